@@ -5,7 +5,12 @@ CLAIMED['C20'] = (
     'Static rule discharge: for every StateValidityChecker/Goal/GoalRegion/GoalSampleableRegion impl of oxmpl-py and oxmpl-js the set of values the adapter can return is computed through closures, with_gil and Option/Result adaptors and must be {strict extraction of the callback result, fail-closed constant}. Exact for the stated policy on every state and failure position; does not execute Python.',
     'Trusted: rustc MIR, the mirfacts serialisation, documented strictness of pyo3 extract::<bool>/<f64> and JsValue::as_bool/as_f64; "identical to callbacks returning False" follows from the shared planner code and is not re-proved.',
     'DESIGN.md section 4, C20')
-NOT_BUILT = ['C01', 'C02', 'C03', 'C05', 'C06', 'C07', 'C08', 'C11', 'C12', 'C13', 'C15', 'C16', 'C17', 'C18', 'C19']
+CLAIMED['C07'] = (
+    'who-may-call + generator-identity dataflow + take/restore pairing + clock taint over MIR',
+    'Static non-interference rules decided for every call history: (source) nondeterminism sources (OS/thread rng, SystemTime, RandomState, hash iteration, pointer-to-int) are called on planning paths only in the unseeded fallback of the rng field; (flow) every rng consumer reachable from the planner API draws from the planner generator or forwards its caller\'s, RngCore wrappers forward faithfully; (restore) a generator taken from the rng field is stored back on every normal exit; (clock) Instant values reach only the deadline comparison; (seed) PlannerConfig.seed reaches seed_from_u64 unmodified and lands in the rng field. Does not compare two executions.',
+    'Trusted: rustc MIR, mirfacts, determinism of StdRng::seed_from_u64 and rand adaptors, deterministic user callbacks.',
+    'DESIGN.md section 4, C07')
+NOT_BUILT = ['C01', 'C02', 'C03', 'C05', 'C06', 'C08', 'C11', 'C12', 'C13', 'C15', 'C16', 'C17', 'C18', 'C19']
 for p in NOT_BUILT:
     if p not in CLAIMED:
         NOT_APPLICABLE[p] = 'not built yet (static rule designed in DESIGN.md section 4; moved to claimed when its check exists)'
